@@ -7,26 +7,35 @@
 EXTENDS Gzip, Json, TLC
 
 MCReqsFull  == [ae : {"yes", "no", "refused"}, ct : {"match", "nomatch", "absent"}, enc : {"", "br"},
-                cl : {FALSE, TRUE}, acc : {"other", "sse"}, method : {"GET", "HEAD"}, late : {FALSE}, vary : {""}]
+                cl : {FALSE, TRUE}, acc : {"other", "sse"}, method : {"GET", "HEAD"}, late : {FALSE}, vary : {""}, buf : {"fresh"}, via : {"default"}]
 MCReqsMid   == [ae : {"yes", "no", "refused"}, ct : {"match", "nomatch"}, enc : {"", "br"},
-                cl : {FALSE, TRUE}, acc : {"other"}, method : {"GET"}, late : {FALSE}, vary : {""}]
+                cl : {FALSE, TRUE}, acc : {"other"}, method : {"GET"}, late : {FALSE}, vary : {""}, buf : {"fresh"}, via : {"default"}]
 \* informational headers: the parameters that matter for them, with the response headers set early or late
 MCReqsInfo  == [ae : {"yes", "no", "refused"}, ct : {"match", "nomatch"}, enc : {"", "br"},
-                cl : {FALSE, TRUE}, acc : {"other"}, method : {"GET", "HEAD"}, late : {FALSE, TRUE}, vary : {""}]
-MCReqsInfoPair == [ae : {"yes", "no"}, ct : {"match"}, enc : {""}, cl : {TRUE}, acc : {"other"}, method : {"GET"}, late : {FALSE, TRUE}, vary : {""}]
+                cl : {FALSE, TRUE}, acc : {"other"}, method : {"GET", "HEAD"}, late : {FALSE, TRUE}, vary : {""}, buf : {"fresh"}, via : {"default"}]
+MCReqsInfoOne == [ae : {"yes"}, ct : {"match"}, enc : {""}, cl : {TRUE}, acc : {"other"}, method : {"GET"}, late : {FALSE, TRUE}, vary : {""}, buf : {"fresh"}, via : {"default"}]
+MCReqsInfoPair == [ae : {"yes", "no"}, ct : {"match"}, enc : {""}, cl : {TRUE}, acc : {"other"}, method : {"GET"}, late : {FALSE, TRUE}, vary : {""}, buf : {"fresh"}, via : {"default"}]
 \* Accept-Encoding classes incl. wildcard / several codings / q-values in any order
 MCReqsAE    == [ae : {"yes", "no", "refused", "refusedwild", "wild"}, ct : {"match", "nomatch"}, enc : {""},
-                cl : {FALSE, TRUE}, acc : {"other"}, method : {"GET"}, late : {FALSE}, vary : {""}]
+                cl : {FALSE, TRUE}, acc : {"other"}, method : {"GET"}, late : {FALSE}, vary : {""}, buf : {"fresh"}, via : {"default"}]
 \* streamed responses (Flush between chunks / before the first one)
 MCReqsFlush == [ae : {"yes", "no", "refused"}, ct : {"match", "nomatch"}, enc : {"", "br"},
-                cl : {FALSE, TRUE}, acc : {"other", "sse"}, method : {"GET", "HEAD"}, late : {FALSE}, vary : {""}]
+                cl : {FALSE, TRUE}, acc : {"other", "sse"}, method : {"GET", "HEAD"}, late : {FALSE}, vary : {""}, buf : {"fresh"}, via : {"default"}]
 \* histories on one instance: responses that carry a Vary value of their own / are aborted, then ordinary ones
 MCReqsHist  == [ae : {"yes", "no"}, ct : {"match", "nomatch"}, enc : {"", "br"}, cl : {FALSE, TRUE},
-                acc : {"other"}, method : {"GET"}, late : {FALSE}, vary : {"", "own"}]
+                acc : {"other"}, method : {"GET"}, late : {FALSE}, vary : {"", "own"}, buf : {"fresh"}, via : {"default"}]
 MCReqsHistPair == [ae : {"yes"}, ct : {"match", "nomatch"}, enc : {""}, cl : {TRUE},
-                   acc : {"other"}, method : {"GET"}, late : {FALSE}, vary : {"", "own"}]
-MCReqsPair  == [ae : {"yes", "refused"}, ct : {"match", "nomatch"}, enc : {"", "br"}, cl : {TRUE}, acc : {"other"}, method : {"GET"}, late : {FALSE}, vary : {""}]
-MCReqsSmall == [ae : {"yes", "no"}, ct : {"match"}, enc : {""}, cl : {TRUE}, acc : {"other"}, method : {"GET"}, late : {FALSE}, vary : {""}]
+                   acc : {"other"}, method : {"GET"}, late : {FALSE}, vary : {"", "own"}, buf : {"fresh"}, via : {"default"}]
+\* typeless bodies whose type is sniffed, written from a reused buffer; failed hijack attempts
+MCReqsSniff == [ae : {"yes", "no"}, ct : {"absent", "match"}, enc : {""}, cl : {FALSE, TRUE}, acc : {"other"},
+                method : {"GET"}, late : {FALSE}, vary : {""}, buf : {"fresh", "reused"}, via : {"default"}]
+\* the proxy's transports (route options) x encoded / not encoded upstream responses
+MCReqsVia   == [ae : {"yes", "no", "refused"}, ct : {"match", "nomatch"}, enc : {"", "br"}, cl : {FALSE, TRUE}, acc : {"other"},
+                method : {"GET"}, late : {FALSE}, vary : {""}, buf : {"fresh"}, via : {"default", "insecure", "target"}]
+\* the quick tier enumerates the four special universes above in one run
+MCReqsMisc  == MCReqsAE \cup MCReqsVia \cup MCReqsSniff \cup MCReqsHist
+MCReqsPair  == [ae : {"yes", "refused"}, ct : {"match", "nomatch"}, enc : {"", "br"}, cl : {TRUE}, acc : {"other"}, method : {"GET"}, late : {FALSE}, vary : {""}, buf : {"fresh"}, via : {"default"}]
+MCReqsSmall == [ae : {"yes", "no"}, ct : {"match"}, enc : {""}, cl : {TRUE}, acc : {"other"}, method : {"GET"}, late : {FALSE}, vary : {""}, buf : {"fresh"}, via : {"default"}]
 MCOne == {1}
 MCTwo == {1, 2}
 MCThree == {1, 2, 3}
@@ -61,6 +70,7 @@ GenNext == \E h \in Handlers :
              \/ (\E k \in Chunks : Write(h, k)) /\ PrintT(ToJson(BehaviourJson'))
              \/ (WithFlush /\ FlushOp(h)) /\ PrintT(ToJson(BehaviourJson'))
              \/ (WithAbort /\ Abort(h)) /\ PrintT(ToJson(BehaviourJson'))
+             \/ (WithHijack /\ HijackFails(h)) /\ PrintT(ToJson(BehaviourJson'))
              \/ FinishFlush(h) /\ PrintT(ToJson(BehaviourJson'))
              \/ FinishPut(h)
 GenSpec == Init /\ [][GenNext]_vars
